@@ -117,6 +117,8 @@ structure Closed (P : Prog) (e : Nat) (m : Marks) : Prop where
   types : ∀ t ∈ m.types, ∀ τ, P.types[t]? = some τ → TyMarked m τ
   tuples : ∀ u ∈ m.tuples, ∀ T, P.tuples[u]? = some T → ∀ p ∈ T.fields, p.2 ∈ m.types
   builtins : ∀ b ∈ m.builtins, ∀ B, P.builtins[b]? = some B → B.paramType ∈ m.types ∧ B.resultType ∈ m.types
+  nodupTypes : m.types.Nodup
+  nodupTuples : m.tuples.Nodup
 
 /-- `IsRenaming` without the four clauses about the run-time lookup tables (which `tree_shake` does not
     produce: they are recomputed from the shaken tables when the bytecode is loaded). -/
